@@ -141,3 +141,48 @@ pub fn area_diff(area: &[u8]) -> String {
     }
     out.join(",")
 }
+
+// ---------------------------------------------------------------------------------------------
+// xport engine (C04/C17): guest memory with an explicit bitmap page size and region sizes
+
+/// Guest memory whose regions `(guest base, size)` carry an `AtomicBitmap` of page size `page`
+/// (vm-memory lets the embedder choose it: `MmapRegionBuilder::new_with_bitmap`).
+pub fn new_mem_with(page: usize, regions: &[(u64, usize)]) -> Mem {
+    use std::num::NonZeroUsize;
+    use vm_memory::mmap::MmapRegionBuilder;
+    use vm_memory::GuestRegionMmap;
+    let regs: Vec<GuestRegionMmap<AtomicBitmap>> = regions
+        .iter()
+        .map(|&(base, size)| {
+            let bm = AtomicBitmap::new(size, NonZeroUsize::new(page).expect("page size"));
+            let r = MmapRegionBuilder::new_with_bitmap(size, bm)
+                .with_mmap_prot(libc::PROT_READ | libc::PROT_WRITE)
+                .with_mmap_flags(libc::MAP_ANONYMOUS | libc::MAP_PRIVATE | libc::MAP_NORESERVE)
+                .build()
+                .expect("mmap region");
+            GuestRegionMmap::new(r, GuestAddress(base)).expect("guest region")
+        })
+        .collect();
+    GuestMemoryMmap::from_regions(regs).expect("guest memory")
+}
+
+/// the dirty page indices of the region starting at `base`, and a reset of its bitmap
+pub fn take_dirty(mem: &Mem, base: u64) -> Vec<usize> {
+    use vm_memory::{GuestMemory, GuestMemoryRegion};
+    let mut out = Vec::new();
+    for r in mem.iter() {
+        if r.start_addr().raw_value() != base {
+            continue;
+        }
+        let bm: &AtomicBitmap = vm_memory::mmap::MmapRegion::bitmap(r);
+        for (w, bits) in bm.get_and_reset().iter().enumerate() {
+            let mut b = *bits;
+            while b != 0 {
+                let i = b.trailing_zeros() as usize;
+                out.push(w * 64 + i);
+                b &= b - 1;
+            }
+        }
+    }
+    out
+}
